@@ -1267,22 +1267,10 @@ open CvssVerif CvssVerif.GoMap
 
 -- @def GetExploitability
 @[gtab] def GetExploitability (s_ : Bytes) : Int :=
-  if (s_ == ([78, 68] : Bytes)) then
-    (1 : Int)
-  else
-    if (s_ == ([85] : Bytes)) then
-      (2 : Int)
-    else
-      if (s_ == ([80, 79, 67] : Bytes)) then
-        (3 : Int)
-      else
-        if (s_ == ([70] : Bytes)) then
-          (4 : Int)
-        else
-          if (s_ == ([72] : Bytes)) then
-            (5 : Int)
-          else
-            (0 : Int)
+  match mapRev tbl_exploitabilityMap s_ with
+    | some k_ => k_
+    | none =>
+      (0 : Int)
 
 -- @def GetIntegrityImpact
 @[gtab] def GetIntegrityImpact (s_ : Bytes) : Int :=
@@ -1300,38 +1288,17 @@ open CvssVerif CvssVerif.GoMap
 
 -- @def GetRemediationLevel
 @[gtab] def GetRemediationLevel (s_ : Bytes) : Int :=
-  if (s_ == ([78, 68] : Bytes)) then
-    (1 : Int)
-  else
-    if (s_ == ([79, 70] : Bytes)) then
-      (2 : Int)
-    else
-      if (s_ == ([84, 70] : Bytes)) then
-        (3 : Int)
-      else
-        if (s_ == ([87] : Bytes)) then
-          (4 : Int)
-        else
-          if (s_ == ([85] : Bytes)) then
-            (5 : Int)
-          else
-            (0 : Int)
+  match mapRev tbl_remediationLevelMap s_ with
+    | some k_ => k_
+    | none =>
+      (0 : Int)
 
 -- @def GetReportConfidence
 @[gtab] def GetReportConfidence (s_ : Bytes) : Int :=
-  if (s_ == ([78, 68] : Bytes)) then
-    (1 : Int)
-  else
-    if (s_ == ([85, 67] : Bytes)) then
-      (3 : Int)
-    else
-      if (s_ == ([85, 82] : Bytes)) then
-        (2 : Int)
-      else
-        if (s_ == ([67] : Bytes)) then
-          (4 : Int)
-        else
-          (0 : Int)
+  match mapRev tbl_reportConfidenceMap s_ with
+    | some k_ => k_
+    | none =>
+      (0 : Int)
 
 -- @def GetTargetDistribution
 @[gtab] def GetTargetDistribution (s_ : Bytes) : Int :=
@@ -1477,7 +1444,7 @@ open CvssVerif CvssVerif.GoMap
 
 -- @def revTables
 /-- the code tables searched by a `for k, v := range` loop: their values must be pairwise different -/
-def revTables : List (String × List (Int × Bytes)) := [("accessComplexityMap", tbl_accessComplexityMap), ("accessVectorMap", tbl_accessVectorMap), ("authenticationMap", tbl_authenticationMap), ("availabilityImpactMap", tbl_availabilityImpactMap), ("availabilityRequirementMap", tbl_availabilityRequirementMap), ("collateralDamagePotentialMap", tbl_collateralDamagePotentialMap), ("confidentialityImpactMap", tbl_confidentialityImpactMap), ("confidentialityRequirementMap", tbl_confidentialityRequirementMap), ("integrityImpactMap", tbl_integrityImpactMap), ("integrityRequirementMap", tbl_integrityRequirementMap), ("targetDistributionMap", tbl_targetDistributionMap)]
+def revTables : List (String × List (Int × Bytes)) := [("accessComplexityMap", tbl_accessComplexityMap), ("accessVectorMap", tbl_accessVectorMap), ("authenticationMap", tbl_authenticationMap), ("availabilityImpactMap", tbl_availabilityImpactMap), ("availabilityRequirementMap", tbl_availabilityRequirementMap), ("collateralDamagePotentialMap", tbl_collateralDamagePotentialMap), ("confidentialityImpactMap", tbl_confidentialityImpactMap), ("confidentialityRequirementMap", tbl_confidentialityRequirementMap), ("exploitabilityMap", tbl_exploitabilityMap), ("integrityImpactMap", tbl_integrityImpactMap), ("integrityRequirementMap", tbl_integrityRequirementMap), ("remediationLevelMap", tbl_remediationLevelMap), ("reportConfidenceMap", tbl_reportConfidenceMap), ("targetDistributionMap", tbl_targetDistributionMap)]
 
 -- @def consts
 def consts : List (String × Int) := [("AccessComplexityHigh", 1), ("AccessComplexityLow", 3), ("AccessComplexityMedium", 2), ("AccessComplexityUnknown", 0), ("AccessVectorAdjacent", 2), ("AccessVectorLocal", 1), ("AccessVectorNetwork", 3), ("AccessVectorUnknown", 0), ("AuthenticationMultiple", 3), ("AuthenticationNone", 1), ("AuthenticationSingle", 2), ("AuthenticationUnknown", 0), ("AvailabilityImpactComplete", 3), ("AvailabilityImpactNone", 1), ("AvailabilityImpactPartial", 2), ("AvailabilityImpactUnknown", 0), ("AvailabilityRequirementHigh", 4), ("AvailabilityRequirementInvalid", 0), ("AvailabilityRequirementLow", 2), ("AvailabilityRequirementMedium", 3), ("AvailabilityRequirementNotDefined", 1), ("CollateralDamagePotentialHigh", 6), ("CollateralDamagePotentialInvalid", 0), ("CollateralDamagePotentialLow", 3), ("CollateralDamagePotentialLowMedium", 4), ("CollateralDamagePotentialMediumHigh", 5), ("CollateralDamagePotentialNon", 2), ("CollateralDamagePotentialNotDefined", 1), ("ConfidentialityImpactComplete", 3), ("ConfidentialityImpactNone", 1), ("ConfidentialityImpactPartial", 2), ("ConfidentialityImpactUnknown", 0), ("ConfidentialityRequirementHigh", 4), ("ConfidentialityRequirementInvalid", 0), ("ConfidentialityRequirementLow", 2), ("ConfidentialityRequirementMedium", 3), ("ConfidentialityRequirementNotDefined", 1), ("ExploitabilityFunctional", 4), ("ExploitabilityHigh", 5), ("ExploitabilityInvalid", 0), ("ExploitabilityNotDefined", 1), ("ExploitabilityProofOfConcept", 3), ("ExploitabilityUnproven", 2), ("IntegrityImpactComplete", 3), ("IntegrityImpactNone", 1), ("IntegrityImpactPartial", 2), ("IntegrityImpactUnknown", 0), ("IntegrityRequirementHigh", 4), ("IntegrityRequirementInvalid", 0), ("IntegrityRequirementLow", 2), ("IntegrityRequirementMedium", 3), ("IntegrityRequirementNotDefined", 1), ("RemediationLevelInvalid", 0), ("RemediationLevelNotDefined", 1), ("RemediationLevelOfficialFix", 2), ("RemediationLevelTemporaryFix", 3), ("RemediationLevelUnavailable", 5), ("RemediationLevelWorkaround", 4), ("ReportConfidenceConfirmed", 4), ("ReportConfidenceInvalid", 0), ("ReportConfidenceNotDefined", 1), ("ReportConfidenceUnconfirmed", 2), ("ReportConfidenceUncorroborated", 3), ("SeverityHigh", 3), ("SeverityLow", 1), ("SeverityMedium", 2), ("SeverityUnknown", 0), ("TargetDistributionHigh", 5), ("TargetDistributionInvalid", 0), ("TargetDistributionLow", 3), ("TargetDistributionMedium", 4), ("TargetDistributionNon", 2), ("TargetDistributionNotDefined", 1)]
